@@ -39,6 +39,29 @@ Theorem C13_pinned_refuted_alias_steal :
 Proof. exact pinned_refuted_alias_steal. Qed.
 Print Assumptions C13_pinned_refuted_alias_steal.
 
+(* (iii) third defect, found while proving this property and repaired by fix: 883e1ef
+   (flag fix_nodes_ids_alias; every other fix already on): `insert nodes ids [2] aliases ["a"]`
+   called insert_new_alias on the existing node 2, dropping its alias "b" and stealing "a" from
+   node 1 with only `RemoveAlias "a"` recorded: after the failed transaction both nodes have no alias. *)
+Theorem C13_nodes_ids_alias_refuted :
+  let rv := {| fix_rollback_replace := true; fix_alias_steal_undo := true; fix_alias_nodes_only := true;
+               fix_strict_order := true; fix_slice_clamp := true; fix_edge_origin := true;
+               fix_visited_chain := true; fix_nodes_ids_alias := false |} in
+  let d := fst (exec rv db_new (InsertNodes 2 (Single []) [[x61]; [x62]] (Ids []))) in
+  let d' := fst (transaction rv d [InsertNodes 0 (Single []) [[x61]] (Ids [QId 2])] true) in
+  ~ obs_eq d d' /\
+  imap_key (aliases d) 1 = Some [x61] /\ imap_key (aliases d) 2 = Some [x62] /\
+  imap_key (aliases d') 1 = None /\ imap_key (aliases d') 2 = None.
+Proof. exact nodes_ids_alias_refuted. Qed.
+Print Assumptions C13_nodes_ids_alias_refuted.
+
+Example C13_fixed_restores_nodes_ids_alias :
+  let d := fst (exec rv_fixed db_new (InsertNodes 2 (Single []) [[x61]; [x62]] (Ids []))) in
+  let d' := fst (transaction rv_fixed d [InsertNodes 0 (Single []) [[x61]] (Ids [QId 2])] true) in
+  obs_eq d d' /\ undo d' = [].
+Proof. exact fixed_restores_nodes_ids_alias. Qed.
+Print Assumptions C13_fixed_restores_nodes_ids_alias.
+
 (* the same transactions on the repaired revision restore the state, including the ids
    that are handed out next *)
 Example C13_fixed_restores_replace :
